@@ -1217,18 +1217,38 @@ m4_define(`m4_linear_partition_for_polyhedron_domains',
       = static_cast<const C_@CPP_CLASS@&>(*to_const(y));
     std::pair<C_@CPP_CLASS@|COMMA| Pointset_Powerset<NNC_Polyhedron> >
       r = linear_partition(xx, yy);
-    *p_inters = to_nonconst(&r.first);
-    *p_rest = to_nonconst(&r.second);
+    // The results are returned through new heap-allocated objects
+    // (owned by the caller), not through pointers into the local pair.
+    C_@CPP_CLASS@* const inters = new C_@CPP_CLASS@(r.first);
+    Pointset_Powerset<NNC_Polyhedron>* rest;
+    try {
+      rest = new Pointset_Powerset<NNC_Polyhedron>(r.second);
+    }
+    catch (...) {
+      delete inters;
+      throw;
+    }
+    *p_inters = to_nonconst(inters);
+    *p_rest = to_nonconst(rest);
  }
  else {
-    const C_@CPP_CLASS@& xx
-      = static_cast<const C_@CPP_CLASS@&>(*to_const(x));
-    const C_@CPP_CLASS@& yy
-      = static_cast<const C_@CPP_CLASS@&>(*to_const(y));
-    std::pair<C_@CPP_CLASS@|COMMA| Pointset_Powerset<NNC_Polyhedron> >
+    const NNC_@CPP_CLASS@& xx
+      = static_cast<const NNC_@CPP_CLASS@&>(*to_const(x));
+    const NNC_@CPP_CLASS@& yy
+      = static_cast<const NNC_@CPP_CLASS@&>(*to_const(y));
+    std::pair<NNC_@CPP_CLASS@|COMMA| Pointset_Powerset<NNC_Polyhedron> >
       r = linear_partition(xx, yy);
-    *p_inters = to_nonconst(&r.first);
-    *p_rest = to_nonconst(&r.second);
+    NNC_@CPP_CLASS@* const inters = new NNC_@CPP_CLASS@(r.first);
+    Pointset_Powerset<NNC_Polyhedron>* rest;
+    try {
+      rest = new Pointset_Powerset<NNC_Polyhedron>(r.second);
+    }
+    catch (...) {
+      delete inters;
+      throw;
+    }
+    *p_inters = to_nonconst(inters);
+    *p_rest = to_nonconst(rest);
 }
   return 0;
 
@@ -1242,8 +1262,19 @@ m4_define(`m4_linear_partition_for_non_polyhedron_domains',
       = static_cast<const @CPP_CLASS@&>(*to_const(y));
     std::pair<@CPP_CLASS@|COMMA| Pointset_Powerset<NNC_Polyhedron> >
       r = linear_partition(xx, yy);
-    *p_inters = to_nonconst(&r.first);
-    *p_rest = to_nonconst(&r.second);
+    // The results are returned through new heap-allocated objects
+    // (owned by the caller), not through pointers into the local pair.
+    @CPP_CLASS@* const inters = new @CPP_CLASS@(r.first);
+    Pointset_Powerset<NNC_Polyhedron>* rest;
+    try {
+      rest = new Pointset_Powerset<NNC_Polyhedron>(r.second);
+    }
+    catch (...) {
+      delete inters;
+      throw;
+    }
+    *p_inters = to_nonconst(inters);
+    *p_rest = to_nonconst(rest);
   return 0;
 
 ')
@@ -1264,8 +1295,19 @@ ppl_@CLASS@_approximate_@PARTITION@
     bool finite;
     std::pair<@CPP_CLASS@|COMMA| Pointset_Powerset<Grid> >
       r = approximate_partition(xx, yy, finite);
-    *p_inters = to_nonconst(&r.first);
-    *p_rest = to_nonconst(&r.second);
+    // The results are returned through new heap-allocated objects
+    // (owned by the caller), not through pointers into the local pair.
+    @CPP_CLASS@* const inters = new @CPP_CLASS@(r.first);
+    Pointset_Powerset<Grid>* rest;
+    try {
+      rest = new Pointset_Powerset<Grid>(r.second);
+    }
+    catch (...) {
+      delete inters;
+      throw;
+    }
+    *p_inters = to_nonconst(inters);
+    *p_rest = to_nonconst(rest);
     *p_finite = finite ? 1 : 0;
   return 0;
 }
